@@ -18,6 +18,7 @@ import (
 	_ "verif/harness/c14"
 	_ "verif/harness/c15"
 	_ "verif/harness/c16"
+	_ "verif/harness/c17"
 	_ "verif/harness/c18"
 )
 
